@@ -115,6 +115,8 @@ TABLE = {
     '_countifs': ('a: List[int], b: List[int], t: int', 'len(a) <= 3 and len(b) <= 3', '[a], (lambda x: x > t), [b], (lambda x: x < t)'),
     '_sumifs': ('a: List[int], b: List[int], t: int', 'len(a) <= 3 and len(b) <= 3', '[a], [b], (lambda x: x > t)'),
     '_network_days': ('d: int, n: int', '1 <= d <= 7 and -7 <= n <= 7', 'datetime.datetime(2024, 1, d), datetime.datetime(2024, 1, d) + datetime.timedelta(days=n), None'),
+    '_network_days_tod': ('d: int, n: int, h1: int, h2: int', '1 <= d <= 7 and -1 <= n <= 1 and 0 <= h1 <= 23 and 0 <= h2 <= 23',
+                          'datetime.datetime(2024, 1, d, h1), datetime.datetime(2024, 1, d, h2) + datetime.timedelta(days=n), None'),     # times of day: the direction is decided on the dates
     '_index': ('r: int, c: Optional[int], a: int', '0 <= r <= 4 and (c is None or 0 <= c <= 4) and 1 <= a <= 3', '([[1, 2], [3, 4]], [[5, 6], [7, 8]]), r, c, a'),
     '_count_blank': ('a: List[Union[int, str, None]]', 'len(a) <= 3 and all(not isinstance(x, str) or len(x) <= 7 for x in a)', 'a'),
     '_ifs': ('a: List[Union[int, bool, str]]', 'len(a) <= 4 and all(not isinstance(x, str) or len(x) <= 7 for x in a)', 'a'),
@@ -137,7 +139,7 @@ SPECIAL = {
     'EmptyCell': ("o = ['__lt__', '__le__', '__gt__', '__ge__', '__eq__', '__ne__'][op]\n"
                   "return same(outcome(lambda: getattr(KG.EmptyCell(), o)(x)), outcome(lambda: getattr(KB.EmptyCell(), o)(x)))"),
 }
-HELPER_OF = {'_vlookup_default': '_vlookup', '_date_str': '_date', '_value_parts': '_value'}
+HELPER_OF = {'_network_days_tod': '_network_days', '_vlookup_default': '_vlookup', '_date_str': '_date', '_value_parts': '_value'}
 
 
 def _strings(alpha, n, lo=0):
